@@ -48,6 +48,18 @@ type C12Case struct {
 	// version (cp -p, rsync -t, two saves within one tick). 2: a day older than the first (a backup put back). 3: the first
 	// versions were dated an hour into the future (a clock that was wrong at the time), the second is written now.
 	Mtime int `json:"mtime,omitempty"`
+	// Names: how candidate k of class c (index 4*c+k) is called: 0 = the plain name, else an entry of c12NameForms (blanks,
+	// non-ASCII letters in UTF-8 and in a legacy 8-bit encoding, a leading dot, a very long name ...); NestedName likewise for
+	// the sub-directory of the nested candidates. A file name is a sequence of bytes, the configuration is inside the file.
+	Names      [8]int `json:"names,omitempty"`
+	NestedName int    `json:"nested_name,omitempty"`
+}
+
+var c12NameForms = []string{"%s", "my %s", "Ger\xe4t %s", "пульт-%s", ".%s", "%s", "a-very-long-name-" + strings.Repeat("x", 150) + "-%s", "\xff\xfe%s", "caf\u00e9 %s", "tab\there %s"}
+var c12DirForms = []string{"by-room", "fr\xfcher", "старое", "with blank", ".hidden"}
+
+func c12Name(c *C12Case, idx int, plain string) string {
+	return fmt.Sprintf(c12NameForms[c.Names[idx]%len(c12NameForms)], plain)
 }
 
 func c12Config(tag string, id [4]uint16) string {
@@ -177,8 +189,9 @@ func c12WriteCandidates(root string, c *C12Case, write func(dir int, name string
 				id = zero
 				name = "0_default.toml"
 			}
+			name = c12Name(c, 4*class+k, name)
 			if c.Nested[4*class+k] {
-				name = filepath.Join("by-room", "office", name)
+				name = filepath.Join(c12DirForms[c.NestedName%len(c12DirForms)], "office", name)
 			}
 			tag := cls + "-" + c12Tags[k]
 			if upper {
@@ -340,6 +353,7 @@ func checkC12(c C12Case) (bool, *Violation) {
 			if want%2 == 1 {
 				wantFile = "0_default.toml"
 			}
+			wantFile = c12Name(&c, 4*dirBase+want, wantFile)
 			if got.ConfigFile != wantFile {
 				return violation("C12", "wrong-file-name", "", "ConfigFile = %q, want %q", got.ConfigFile, wantFile)
 			}
@@ -402,6 +416,10 @@ func checkC12(c C12Case) (bool, *Violation) {
 	}
 	for _, l := range c.Linked {
 		classifyIf(l, "a candidate file that is a symbolic link")
+	}
+	for _, nm := range c.Names {
+		classifyIf(nm == 2 || nm == 7, "a candidate file whose name is not valid UTF-8")
+		classifyIf(nm != 0 && nm != 2 && nm != 7 && nm != 5, "a candidate file with blanks / non-ASCII letters / a leading dot / a very long name")
 	}
 	return nontrivial, v
 }
@@ -471,6 +489,12 @@ func genC12(t *rapid.T) C12Case {
 	for i := range c.Linked {
 		c.Linked[i] = rapid.IntRange(0, 5).Draw(t, "linked") == 0
 	}
+	for i := range c.Names {
+		if rapid.IntRange(0, 3).Draw(t, "oddName") == 0 {
+			c.Names[i] = rapid.IntRange(1, len(c12NameForms)-1).Draw(t, "nameForm")
+		}
+	}
+	c.NestedName = rapid.SampledFrom([]int{0, 0, 0, 1, 2, 3, 4}).Draw(t, "nestedName")
 	if c.MissingDir < 0 {
 		c.Resave = rapid.SampledFrom([]int{0, 0, 0, 1, 2}).Draw(t, "resave")
 		if c.Resave > 0 {
